@@ -45,7 +45,7 @@ PROPS = {
         not_decided=['not decided deductively: Flask-generated responses (automatic OPTIONS, /static) never enter a view function; observed only by the native harness',
                      'observation, not a violation of the statement: the scheme word is not checked (Basic <token> is accepted); a header without a second word gives 500']),
     'C17': dict(
-        mods=['contracts.c17_timeouts'], k1=K1_C17, level='proof',
+        mods=['contracts.c17_timeouts', 'contracts.c15_c18_server'], k1=K1_C17, level='proof',
         harness='verif/native/c17_harness.py', harness_budget=(20, 90),
         explanation='ghost monotone clock ($now, advanced by every datetime.now()); representation invariant of the instance table; '
                     'sweep contract: entries alive at the latest clock reading survive unchanged, entries expired at the earliest reading are '
